@@ -24,7 +24,7 @@ compiles, passes the 55 tests and has a demo that fails with the change and pass
 confirmed each (`tools/seedtest.sh` / `tools/seedtest3.sh`), ran the property's check on it, undid it;
 `tools/seed_regress.sh` re-runs all of them against the current contracts on scratch copies
 (`VP_NO_STANDIN=1` for proofs only). Letters: `-A`, `-B` first two rounds (32 changes), `-C`, `-D` third
-round (32), `-E` fourth round (16 breaking), `-F` fifth round (16 breaking), `-G`, `-J` sixth round (32 breaking; the sub-agents were given the list of all earlier changes and told to be different in kind), `-K`, `-L` seventh round (32 breaking; pointed at constructors, Display/From impls, writers, configuration builders, unusual literal types, error paths and interactions between two public calls), `-M` eighth round (2 breaking, C11 and C12: a short round in the continuation session of 2026-10-05; C12-M fails the loop invariant of `Renumber::transfer` at the const-fold `continue`, C11-M rewrites a guarded statement so the proof side loses its anchor - exit 2 on its own - and the bounded writer suite decides), `-H` / `-HH` fourth and fifth
+round (32), `-E` fourth round (16 breaking), `-F` fifth round (16 breaking), `-G`, `-J` sixth round (32 breaking; the sub-agents were given the list of all earlier changes and told to be different in kind), `-K`, `-L` seventh round (32 breaking; pointed at constructors, Display/From impls, writers, configuration builders, unusual literal types, error paths and interactions between two public calls), `-M` eighth round (4 breaking, C06 C11 C12 C16; three fail a named Verus obligation - `gcnf::Parser::new#limits`, `text::newline#value`, the loop invariant of `Renumber::transfer` - and all four a bounded suite: a short round in the continuation session of 2026-10-05; C12-M fails the loop invariant of `Renumber::transfer` at the const-fold `continue`, C11-M rewrites a guarded statement so the proof side loses its anchor - exit 2 on its own - and the bounded writer suite decides), `-H` / `-HH` fourth and fifth
 round (16 + 16 harmless refactorings, listed separately below). The titles are the sub-agents' own and may carry their own round/letter labels.
 A BTOR2-only stand-in existed from the first round (obligations then named `standin:btor2::...`, now `standin:fmt:btor2::...`); the suites for all crates were added after the third round, in response to it; "now:" lists what
 the current machinery reports for the same change.
